@@ -71,6 +71,17 @@ def child_env():
     return env
 
 
+def shard_env(over):
+    """child environment with a shard's own settings: value None = the variable is not set at all"""
+    env = child_env()
+    for k, v in (over or {}).items():
+        if v is None:
+            env.pop(k, None)
+        else:
+            env[k] = v
+    return env
+
+
 PYOPT_FLAGS = ["-O", "-W", "error"]
 
 
@@ -89,7 +100,7 @@ def run_shard_child(pid, tier, seed, shard, scratch, timeout):
         p = subprocess.run(
             cmd,
             cwd=ROOT,
-            env=dict(child_env(), **(shard.get("env") or {})),  # a shard may name an environment of its own (locale ...)
+            env=shard_env(shard.get("env")),  # a shard may name an environment of its own (locale, variables that are absent ...)
             timeout=timeout,
             stdout=subprocess.PIPE,
             stderr=subprocess.PIPE,
@@ -300,9 +311,9 @@ def replay(pid, path):
     from vmon.ctx import Ctx
 
     rec = json.load(open(path))
-    if rec.get("env") and any(os.environ.get(k) != v for k, v in rec["env"].items()):
+    if rec.get("env") and any(os.environ.get(k) != v for k, v in rec["env"].items()):  # (None: must be absent)
         # observed in an interpreter started in another environment (locale ...): replay it the same way
-        return subprocess.call([sys.executable, "-B"] + (PYOPT_FLAGS if rec.get("pyopt") else []) + ["-m", "vmon.cli", pid, "--replay", path], cwd=ROOT, env=dict(child_env(), **rec["env"]))
+        return subprocess.call([sys.executable, "-B"] + (PYOPT_FLAGS if rec.get("pyopt") else []) + ["-m", "vmon.cli", pid, "--replay", path], cwd=ROOT, env=shard_env(rec["env"]))
     if rec.get("pyopt") and __debug__:
         # observed in an interpreter started with -O: replay it the same way
         return subprocess.call([sys.executable, "-B"] + PYOPT_FLAGS + ["-m", "vmon.cli", pid, "--replay", path], cwd=ROOT, env=child_env())
